@@ -93,7 +93,7 @@ const code = 18
 var addAKA = ops.ParseJSON(`{"action":"add-also-known-as","uris":["https://windowed.example/1"]}`)
 
 func Run(r *core.Run) {
-	r.Rule = "all combinations of delta in {0,1,3,600} (thorough {0,1,2,3,7,600,86400}), from in {0,5,10} (thorough {0,1,5,10,1000}), until in {0,from-1,from,from+1,from+D-1,from+D,from+D+1}, " +
+	r.Rule = "all combinations of delta in {0,1,3,600} (thorough {0,1,2,3,7,600,86400}), from in {0,5,10} (thorough {0,1,5,10,1000}) and {-D-1,-D,-D+1}, until in {0,from-1,from,from+1,from+D-1,from+D,from+D+1}, " +
 		"t in ({from,until,from+D} +- {0,1}) u {0}; x {update,recover,deactivate} x {Ed25519,P-256} (thorough: all 5 key types) x (baseline + each other numeric protocol parameter set to 4-5 other values alone); " +
 		"distinct = distinct (type,from,until,t,delta,effective,parameter) observations; non-trivial = window set (from or until non-zero)"
 	r.Assumptions = []string{"reference window formula written from the property statement", "JWS signing by the harness's own signer (Go crypto)",
@@ -149,7 +149,12 @@ func Run(r *core.Run) {
 				core.Engine("c09: create fixture not applied under %s: %v", j.v.name, err)
 			}
 			prevDoc := string(jcs.MustCanonGo(prev.Doc))
-			for _, from := range froms {
+			// ... and windows that begin before time 0 (the signed value is a signed integer): from + D is 0 or next to it
+			fs := froms
+			if D > 0 {
+				fs = uniq(append(append([]int64{}, froms...), -D, -D-1, -D+1))
+			}
+			for _, from := range fs {
 				untils := uniq([]int64{0, from - 1, from, from + 1, from + D - 1, from + D, from + D + 1})
 				for _, until := range untils {
 					if until < 0 {
